@@ -151,6 +151,19 @@ def r04_3(ctx):
         n += 1
         where = b.line_at((acq[0][0], 10 ** 6)) if acq else f.loc()
         if len(acq) != 1:
+            # the acquisition may live in a private (async) helper of the same type that hands the guard back: judged on
+            # the union of the bodies - exactly one acquisition in total, the version read and the value read both present
+            from .c01 import effective_bodies
+            eb = [x for x in effective_bodies(F, f) if x.built]
+            if len(eb) > len([x for x in bodies if x.built]):
+                tot_acq = sum(len(inl(F, x).calls(SUB_ACQ)) for x in eb)
+                vers_ = sum(len(inl(F, x).calls(r"ObservableState::<.*>::version$")) for x in eb)
+                vals_ = sum(len(inl(F, x).calls(r"ObservableState::<.*>::get$|ObservableReadGuard::<.*>::new$")) for x in eb)
+                pubs_ = [t for x in eb for blk, t in x.built.calls() if F.local_callee(x, t) is not None and root_fn(F, F.local_callee(x, t)).vis == "pub"
+                         and (root_fn(F, F.local_callee(x, t)).raw.get("self_ty") or "").startswith("subscriber::Subscriber<") and root_fn(F, F.local_callee(x, t)).name in ("get", "read", "next_now", "next_ref_now")]
+                if tot_acq == 1 and vers_ >= 1 and vals_ >= 1 and not pubs_:
+                    ctx.holds("R04.3", f, "value+version-under-one-guard", where, "one acquisition in a private helper that hands the guard back; version and value are read through it")
+                    continue
             # count acquisitions in callees (get()/read()) too
             extra = [t for blk, t in b.calls() if F.local_callee(main, t) is not None and F.local_callee(main, t).name in ("get", "read", "next_ref_now", "next_now")]
             ctx.violated("R04.3", f, "value+version-under-one-guard", where,
